@@ -13,7 +13,8 @@ jobs=()
 for d in "$V"/seeded/*/; do
   id="$(basename "$d")"; [ -n "$PAT" ] && [[ "$id" != *$PAT* ]] && continue
   prop="$(python3 -c "import json;print(json.load(open('$d/meta.json'))['breaks_property'])")"
-  jobs+=("seeded|$d/patch.diff|$prop|1")
+  want="$(python3 -c "import json;print(json.load(open('$d/meta.json')).get('expected_quick_exit',1))")"
+  jobs+=("seeded|$d/patch.diff|$prop|$want")
 done
 for f in "$V"/selftest/refactors/*.diff; do
   id="$(basename "$f")"; [ -n "$PAT" ] && [[ "$id" != *$PAT* ]] && continue
